@@ -27,6 +27,7 @@ DECIDES = (
     ' clear()/backport() empty what assemble() fills and nothing the user declared (C06.USER-STATE-SURVIVES = C12.CLEAR-COMPLETE); simpleGrading only when all wires agree (C06.GRADING-FORM = C04.SIMPLE-ONLY-IF-EQUAL).'
     ' A re-declared geometry takes the new definition (C06.GEOMETRY-REDECLARED); vertex coincidence tests are absolute (C06.VERTEX-TOLERANCE); writing twice writes the same counts (C06.GRADE-IDEMPOTENT).'
     ' Mesh.delete records the operation whether or not its entity has been added yet (part of C06.ASSEMBLE-WALK); edgeGrading slot order (C06.AXIS-TABLE = C01.AXIS-TABLE); corner/side lookup (C06.CORNER-PATCHES = C05.CORNER-PATCHES); no measured length is stored as a snapshot on a transformable entity (C06.LIVE-LENGTHS).'
+    ' The debug VTK is written whenever a debug path is given (part of C06.SECTIONS); patches without faces are not written (C06.EMPTY-PATCH); set_patch with a list assigns every listed side (C06.SIDE-ADDRESSING); no class-level mutable state (C06.NO-CLASS-STATE).'
 )
 NOT_DECIDED = "parse-and-compare equivalence of a complete written file with the model for arbitrary user scripts."
 ASSUMPTIONS = ["a section is 'written' by output.write(<expr reading self.<list>.description>) inside the with-open block of Mesh.write"]
